@@ -136,7 +136,7 @@ Definition C04_full (emit : vopts -> nv -> vdoc) : Prop :=
    Proved: the VERIFIED CHECKER of one round trip - rt_check o n = true certifies that the document written for n
    under the options o is accepted by the reader and gives a netlist with the same top, and per written module the
    same ordered ports (name, direction, width, lower index), the same instances (definition, parameters,
-   attributes) and bit by bit the same connectivity. The run evaluates rt_check (extracted) on every netlist it
+   attributes), bit by bit the same connectivity and the same assignment instances (per pin the o and the i bit). The run evaluates rt_check (extracted) on every netlist it
    writes and compares the verdict with the real write/read cycle; `writable` (the class of the general statement)
    is evaluated too and must imply rt_check.
    Not proved: the general statement C04_emit_roundtrip_full (for every writable value the round trip succeeds). *)
@@ -157,7 +157,8 @@ Proof. exact same_conn_def_sound. Qed.
 Print Assumptions C04_same_conn_def_decided.
 
 (* a three-level design (VEmitRound.ex_src: 4-bit and 3-bit buses, a concatenation on a partially connected port,
-   an unconnected port, a part select, an instance parameter, attributes, a single-bit assign) read by the reader
+   an unconnected port, a part select, an instance parameter, attributes, a single-bit assign, the 3-bit assign
+   v[5:3] = w[-1:-3] between cables declared [6:2] and [0:-3]) read by the reader
    model, written by the writer model under two option sets (default; definition_list + defparam), read again *)
 From Coq Require Import String.
 Local Open Scope string_scope.
@@ -167,11 +168,12 @@ Example C04_emit_roundtrip_witness :
       writable ex_opts n = true /\ rt_check ex_opts n = true /\ rt_check ex_opts_dp n = true /\
       match emit ex_opts n with
       | WOk (m :: _) =>
-          nth_error (vm_body m) 9 =
+          nth_error (vm_body m) 12 =
             Some (IInst (S_ "sub") (S_ "u1") [(S_ "W", S_ "3")] []
                     (CNamed [(S_ "x", Some (DCat [DBit (S_ "a") 1; DId (S_ "b")]));
                              (S_ "z", Some (DAtom (DPart (S_ "t") 1 0))); (S_ "q", None)]))
-          /\ nth_error (vm_body m) 8 = Some (IAssign (DId (S_ "n1")) (DBit (S_ "a") 3))
+          /\ nth_error (vm_body m) 10 = Some (IAssign (DId (S_ "n1")) (DBit (S_ "a") 3))
+          /\ nth_error (vm_body m) 11 = Some (IAssign (DPart (S_ "v") 5 3) (DPart (S_ "w") (-1) (-3)))
       | _ => False
       end
   | Err _ => False
@@ -182,7 +184,7 @@ From Coq Require Import List.
 
 (* The statement at full strength for the modelled writer: on the decidable class `writable` (every port of a
    written module has a direction and lies pin by pin on the cable of its own name; emit succeeds - which excludes
-   multi-bit assigns, unnamed ports and names that need escaping) the written document is accepted and gives the
+   assignment instances that are not one slice per side, unnamed ports and names that need escaping) the written document is accepted and gives the
    same connectivity. NOT proved; on every run `writable o n = true -> rt_check o n = true` is evaluated on every
    netlist written, and rt_check's verdict is a proof for that netlist (C04_emit_roundtrip_checked). *)
 Definition C04_emit_roundtrip_full : Prop :=
